@@ -169,3 +169,48 @@ Definition obs_infer_stream (trailers : option hm) (http : N) : tr :=
   | inr (Some st) => Nd [Nn 2; status_obs st]
   | _ => Nd [Nn 0]
   end.
+
+(* ---- Status::from_error / try_from_error on an error source chain ----
+   A chain is the error followed by its sources.  try_from_error downcasts the ERROR ITSELF to
+   Status, then to h2::Error; otherwise find_status_in_source_chain walks the chain and
+   recognises Status, TimeoutExpired (CANCELLED), ConnectError (UNAVAILABLE) and hyper::Error
+   (timeout -> UNAVAILABLE, canceled -> CANCELLED, an h2::Error as its direct source -> the
+   HTTP/2 table); an h2::Error deeper in a chain is not recognised by itself.  Anything else is
+   UNKNOWN. *)
+Inductive enode :=
+| EStatus (code : N)
+| ETimeout
+| EConnect
+| EH2 (reason : option N)
+| EHyper (timeout canceled : bool) (h2src : option (option N))
+| EOther.
+
+Definition code_from_h2_opt (r : option N) : N :=
+  match r with Some n => code_from_h2 n | None => h2_code_default end.
+
+Definition from_hyper_error (timeout canceled : bool) (h2src : option (option N)) : option N :=
+  if timeout then Some Code_Unavailable
+  else if canceled then Some Code_Cancelled
+  else match h2src with Some r => Some (code_from_h2_opt r) | None => None end.
+
+Fixpoint find_status_in_chain (l : list enode) : option N :=
+  match l with
+  | [] => None
+  | EStatus c :: _ => Some c
+  | ETimeout :: _ => Some Code_Cancelled
+  | EConnect :: _ => Some Code_Unavailable
+  | EHyper t c h :: r =>
+      match from_hyper_error t c h with Some x => Some x | None => find_status_in_chain r end
+  | _ :: r => find_status_in_chain r
+  end.
+
+Definition from_error_code (l : list enode) : N :=
+  match l with
+  | EStatus c :: _ => c
+  | EH2 r :: _ => code_from_h2_opt r
+  | _ => match find_status_in_chain l with Some c => c | None => Code_Unknown end
+  end.
+
+(* what a call sees when the peer resets its stream with HTTP/2 error code [r]: hyper reports an
+   error whose source is the h2 error (neither a timeout nor a cancellation of hyper's own) *)
+Definition reset_stream_code (r : N) : N := from_error_code [EHyper false false (Some (Some r))].
